@@ -587,6 +587,7 @@ func l4Program(r *Rand, lang syntax.LangVariant) (src string, kind string) {
 //     continuations of arguments and redirections, a command substitution over two lines, a
 //     binary command broken after its operator, a here-document;
 //   - the closing keyword on the statement's last line or on a line of its own.
+//
 // These are the inputs of Printer.nestedStmts' decision whether the list starts on its own line.
 func l4HeaderShape(r *Rand, lang syntax.LangVariant) string {
 	bashLike := lang == syntax.LangBash || lang == syntax.LangBats || lang == syntax.LangZsh
@@ -1248,6 +1249,19 @@ func c01Excluded(tc l4Case, f *syntax.File, sh *shape) string {
 		return false
 	}) {
 		return "C01-binnext-heredoc-nested"
+	}
+	// C01-zsh-anon-function-word-body: zsh `function` NEWLINE `b` is parsed as an anonymous function
+	// (no name) whose body is the simple command `b`; it is printed `function b`, which reads as the
+	// header of a function named b.
+	if tc.Lang == syntax.LangZsh && sh.any(func(n syntax.Node) bool {
+		fd, ok := n.(*syntax.FuncDecl)
+		if !ok || !fd.RsrvWord || fd.Name != nil || len(fd.Names) > 0 || fd.Body == nil {
+			return false
+		}
+		_, isBlock := fd.Body.Cmd.(*syntax.Block)
+		return !isBlock
+	}) {
+		return "C01-zsh-anon-function-word-body"
 	}
 	// C01-dashhdoc-nested-string-indent: with tab indentation the body of a <<- here-document is
 	// re-indented line by line, also the lines *inside* a quoted string, an escaped newline or a
